@@ -734,6 +734,58 @@ theorem perdictable_renames (f : List Cell → Val) (params on : List String)
   · cases h
   · cases h
 
+/-! ## Round h2 (review s2): the per-row reading of "previous value supplied"; the arguments of `f` per parameter -/
+
+/-- **"a previously computed value is supplied" — per ROW** (review r2/s2 clause 7).  `row_kept_iff` speaks of a `data` COLUMN; with
+the property's quantifier — an expiry is assigned to previously computed keys only: every row of the `expiry` table with a
+non-`None` expiry has its key in the `data` table (`hq`) — a KEPT row really carries a value supplied for its key: there is
+a row `j` of the `data` table with the key of row `i`, and the cell kept is that row's value.  (`expiry`'s default is `None`.) -/
+theorem kept_has_previous {inputs : List (String × PInput)} {on : List String}
+    {defaults : List (String × Cell)} {ds : Table} (hs : JoinSpec inputs on defaults ds)
+    (dT eT : Table) (hd : ("data", dT) ∈ tableInputs inputs) (he : ("expiry", eT) ∈ tableInputs inputs)
+    (hdoff : "data" ∉ on) (heoff : "expiry" ∉ on) (hde : dfltOf defaults "expiry" = some .none)
+    (hud : dT.R.uniq on) (hue : eT.R.uniq on)
+    (hq : ∀ j, j < eT.nrows → eT.jcellAt (valueCol eT "expiry" on) j ≠ .none →
+      ∃ j', j' < dT.nrows ∧ keq on (dT.rowF j') (eT.rowF j))
+    (ifNone : Bool) (hasData : Bool) (today : Int) (i : Nat) (hi : i < ds.nrows)
+    (hc : ds.jcellAt "expiry" i = .none ∨ ∃ us, ds.jcellAt "expiry" i = .dt us)
+    (hk : rowRuns ifNone ds hasData today i = false) :
+    ∃ j, j < dT.nrows ∧ keq on (dT.rowF j) (ds.rowF i) ∧
+      ds.jcellAt "data" i = dT.jcellAt (valueCol dT "data" on) j := by
+  obtain ⟨_, _, us, hus, _⟩ := (row_kept_iff ifNone ds hasData today i hc).1 hk
+  have hve := join_value_at hs ("expiry", eT) he heoff i hi
+  have hvd := join_value_at hs ("data", dT) hd hdoff i hi
+  by_cases hex : ∃ j, j < eT.nrows ∧ keq on (eT.rowF j) (ds.rowF i)
+  · obtain ⟨je, hje, hke⟩ := hex
+    have hcell := hve.1 je hje hke hue
+    have hne : eT.jcellAt (valueCol eT "expiry" on) je ≠ .none := by
+      rw [← hcell]; rw [hus]; simp
+    obtain ⟨j', hj', hkj⟩ := hq je hje hne
+    have hkd : keq on (dT.rowF j') (ds.rowF i) := keq_trans hkj hke
+    exact ⟨j', hj', hkd, hvd.1 j' hj' hkd hud⟩
+  · obtain ⟨v, hv, hcell⟩ := hve.2 (fun j hj hk' => hex ⟨j, hj, hk'⟩)
+    rw [hde] at hv
+    cases hv
+    rw [hcell] at hus
+    cases hus
+
+/-- **clause "whose value is `f` applied to that key's values"**, per parameter: in row `i` of the joined table the argument
+handed to `f` for a parameter `p` that is a table input is that input's value at the row carrying row `i`'s key — or, when the
+input lacks the key, its default (which then exists); for a scalar input it is the scalar.  (`rowArgs` reads `None` for a
+parameter that is no column of the join: the code raises TypeError there — hypothesis `hp` of the callers, not totalised here.) -/
+theorem row_args_spec {inputs : List (String × PInput)} {on : List String}
+    {defaults : List (String × Cell)} {ds : Table} (hs : JoinSpec inputs on defaults ds)
+    (params : List String) (i : Nat) (hi : i < ds.nrows) (n : Nat) (p : String) (hp : params[n]? = some p) :
+    (rowArgs ds params i)[n]? = some (ds.jcellAt p i) ∧
+    (∀ c, (p, c) ∈ scalarInputs inputs → ds.jcellAt p i = c) ∧
+    (∀ d, (p, d) ∈ tableInputs inputs → p ∉ on →
+      (∀ j, j < d.nrows → keq on (d.rowF j) (ds.rowF i) → d.R.uniq on →
+        ds.jcellAt p i = d.jcellAt (valueCol d p on) j) ∧
+      ((∀ j, j < d.nrows → ¬ keq on (d.rowF j) (ds.rowF i)) →
+        ∃ v, dfltOf defaults p = some v ∧ ds.jcellAt p i = v)) := by
+  refine ⟨by simp [rowArgs, hp], fun c hc => hs.scalars i hi (p, c) hc, fun d hd hoff => ?_⟩
+  exact join_value_at hs (p, d) hd hoff i hi
+
 /-! ## non-vacuity and evaluation tests -/
 
 def fEx (args : List Cell) : Val := .tuple (args.map .cell)
@@ -808,5 +860,27 @@ example : let inputs : List (String × PInput) := [("a", .table tA), ("b", .tabl
 
 /-- the hypotheses of `join_keys_inner` are satisfiable: two inputs keyed by `k` -/
 example : FoldOK ["k"] tA [tB] := ⟨by decide, by decide, by decide, by decide⟩
+
+-- an expiry DATE (wire `DT:`, a `datetime.date`) is read as that day: past -> kept, no call (fix fb67b4d on the code side)
+#guard (match perdictable fEx ["a"] ["k"] [] [("a", .table tA),
+      ("data", .table [("k", [.int 1, .int 2, .int 3]), ("data", [.str "o1", .str "o2", .str "o3"])])] (.scalar (.dt 5)) 10 false with
+  | some (.ok (_, log)) => log == []
+  | _ => false)
+-- `kept_has_previous`: hypotheses satisfiable — expiry table keyed inside the data table; key 3 has no expiry row and is computed
+#guard (match perdictable fEx ["a"] ["k"] [] [("a", .table tA),
+      ("data", .table [("k", [.int 1, .int 2]), ("data", [.str "o1", .str "o2"])])]
+      (.table [("k", [.int 1]), ("expiry", [.dt 5])]) 10 false with
+  | some (.ok (.table t, log)) => log == [[.int 20], [.int 30]] &&
+      t == [("k", [.cell (.int 1), .cell (.int 2), .cell (.int 3)]),
+            ("data", [.cell (.str "o1"), .tuple [.cell (.int 20)], .tuple [.cell (.int 30)]])]
+  | _ => false)
+example : let dT : Table := [("k", [.int 1, .int 2]), ("data", [.str "o1", .str "o2"])]
+    let eT : Table := [("k", [.int 1]), ("expiry", [.dt 5])]
+    ∀ j, j < eT.nrows → eT.jcellAt (valueCol eT "expiry" ["k"]) j ≠ .none →
+      ∃ j', j' < dT.nrows ∧ keq ["k"] (dT.rowF j') (eT.rowF j) := by
+  intro dT eT j hj _
+  have : j = 0 := by simp [eT, Table.nrows] at hj; omega
+  subst this
+  exact ⟨0, by decide, by intro c hc; simp at hc; subst hc; decide⟩
 
 end Pyg.Props.C20
